@@ -256,9 +256,29 @@ class EnforcerWithDomainMatcher(casbin.Enforcer):
 DM_KW = dict(enforcer_cls=EnforcerWithDomainMatcher)
 
 
+KNOWN_DM = "C04/pattern-and-concrete-domain-share-a-link"
+
+
 def spec_check_dm(kind, rows, lf, ops, obs, impl):
     """the fresh comparison enforcer gets the same domain matching function"""
-    return spec_check(kind, rows, lf, ops, obs, impl, impl_kwargs=DM_KW)
+    out = []
+    for k, what, tag in spec_check(kind, rows, lf, ops, obs, impl, impl_kwargs=DM_KW):
+        out.append((k, what, KNOWN_DM if (tag is None and shared_pairs(kind, rows, ops[:k + 1])) else tag))
+    return out
+
+
+def known_probe_dm(chk):
+    """the listed finding, replayed on every run: with a domain matching function, (alice, admin) recorded for "*" and for
+    d1 is ONE link in d1's cached role manager; revoking the "*" assignment takes alice's role in d1 away although
+    g, alice, admin, d1 is still in the policy (a fresh enforcer on the same policy grants it)"""
+    A = mgmt.ATOMS.a
+    kind = mgmt.KINDS["dom"]
+    rows = [(0, [A("admin"), A("d1"), A("data1"), A("read")]), (0, [A("admin"), A("d2"), A("data2"), A("write")]),
+            (1, [A("alice"), A("admin"), STAR])]
+    ops = [(50, [A("alice"), A("d1"), A("data1"), A("read")]), (1, 1, [A("alice"), A("admin"), A("d1")]),
+           (3, 1, [A("alice"), A("admin"), STAR]), (50, [A("alice"), A("d1"), A("data1"), A("read")])]
+    mgmt.run_cases(chk, kind, [(rows, True, ops)], spec_check_dm, label="known-finding-probe-domain-matcher", impl_kwargs=DM_KW,
+                   compare_model=False)
 
 
 spec_check_dm.case_extra = dict(variant="domain-matcher", model_compared=False)
@@ -330,6 +350,7 @@ def run_store_and_matcher(chk, n):
         mgmt.run_cases(chk, kind, cases, spec_check_store, label=f"store-reload-{kn}", compare_model=False)
         strata[f"store_reload_{kn}"] = len(cases)
     kind = mgmt.KINDS["dom"]
+    known_probe_dm(chk)
     cases = list(dm_targeted_cases(kind))
     mgmt.run_cases(chk, kind, cases, spec_check_dm, label="domain-matcher-targeted", impl_kwargs=DM_KW, compare_model=False)
     strata["domain_matcher_targeted"] = len(cases)
